@@ -513,6 +513,29 @@ impl rustc_driver::Callbacks for Cb {
                 cx.body(did)
             );
         }
+        // constant items (`const X: [..] = ..`): their CTFE bodies, so that lookup tables can be read by the rules
+        out.push_str("],\"consts\":[");
+        let mut first_c = true;
+        for def in tcx.hir_body_owners() {
+            let did = def.to_def_id();
+            let kind = tcx.def_kind(did);
+            if !matches!(kind, DefKind::Const { .. } | DefKind::AssocConst { .. }) {
+                continue;
+            }
+            let body = tcx.mir_for_ctfe(did);
+            if !first_c {
+                out.push(',');
+            }
+            first_c = false;
+            let _ = write!(
+                out,
+                "{{\"path\":{},\"kind\":{},\"span\":{},{},\"promoted\":[]}}",
+                esc(&tcx.def_path_str(did)),
+                esc(&format!("{:?}", kind)),
+                cx.span(tcx.def_span(did)),
+                cx.body_of(did, body)
+            );
+        }
         out.push_str("],\"adts\":[");
         let mut first = true;
         for id in tcx.hir_crate_items(()).definitions() {
